@@ -106,6 +106,18 @@ reg('C09', True,
     '(Boost archive behaviour).',
     'clang 14 AST/CFG of six units; Boost.Serialization is trusted',
     'guard dominance over clang CFG + finite-domain composition of writer/reader tables + forwarding-shape rules')
-for _p in ['C01', 'C02', 'C03', 'C06', 'C07', 'C08', 'C14', 'C15', 'C16',
+reg('C08', True,
+    'Decides finite-domain and typestate clauses: for R^n, SO(2), time and discrete spaces enforceBounds followed by '
+    'satisfiesBounds (both bodies interpreted over exact rationals, pi := 1) yields in-bounds, leaves in-bounds input '
+    'unchanged and is idempotent on every ordering region and boundary point; their three sampler methods, executed '
+    'abstractly with the RNG replaced by an adversarial oracle bound only by its contract, always produce states that '
+    'satisfy satisfiesBounds; compound/wrapper/subspace samplers forward per component / through a scratch state and no '
+    'near/Gaussian call site aliases output and mean; all 14 valid-state sampler methods return a possibly-true result '
+    'only with an output state whose last write was followed by a successful validity check (verdict variables forked '
+    'exactly, copyState transfers, checkMotion last-valid contract). Not decided: SO(3) unit norm, fmod for huge inputs, '
+    'uniformReal never returning its upper end point.',
+    'clang 14 AST/CFG of 17 units; the RNG contract ([a,b) for uniformReal) and the validity checker are assumptions',
+    'finite-domain abstract execution with an adversarial RNG oracle + typestate over clang CFG + call-site alias rule')
+for _p in ['C01', 'C02', 'C03', 'C06', 'C07', 'C14', 'C15', 'C16',
            'C17', 'C20']:
     reg(_p, False, '', '', '', PENDING)
